@@ -488,6 +488,11 @@ def str_method(ex, s, name, args, kwargs, line):
         if isinstance(a, tuple):
             return wrap(z3.Or(*[z3.PrefixOf(lift(x), t) for x in a]))
         return wrap(z3.PrefixOf(lift(a), t))
+    if name in ("removeprefix", "removesuffix"):
+        a = lift(args[0])
+        if name == "removeprefix":
+            return wrap(z3.If(z3.PrefixOf(a, t), z3.SubString(t, z3.Length(a), z3.Length(t) - z3.Length(a)), t))
+        return wrap(z3.If(z3.SuffixOf(a, t), z3.SubString(t, 0, z3.Length(t) - z3.Length(a)), t))
     if name == "endswith":
         a = args[0]
         if isinstance(a, tuple):
